@@ -3,6 +3,8 @@ package rules
 import (
 	"fmt"
 	"go/token"
+	"go/types"
+	"sort"
 	"strings"
 
 	"verifchk/internal/an"
@@ -24,6 +26,8 @@ func runC06(c *an.Ctx) {
 	r06d(c)
 	r06e(c)
 	pendingMutationRule(c, "R06f")
+	r06g(c)
+	r06h(c)
 }
 
 func before(a, b ssa.Instruction) bool { return an.CanReach(a, b) && !an.CanReach(b, a) }
@@ -443,4 +447,109 @@ func r06d(c *an.Ctx) {
 		}
 	}
 	c.Ob(key+"|teardown-error-reported", fn.Pos(), failRet, "when the (forced) teardown fails the caller gets an error")
+}
+
+// errSwallowed: the returns of call's function that are reachable when the error result of call is non-nil and
+// nevertheless return a nil error (last result).
+func errSwallowed(call *ssa.Call) []*ssa.Return {
+	var errv ssa.Value = call
+	if tup, ok := call.Type().(*types.Tuple); ok {
+		errv = nil
+		for _, r := range *call.Referrers() {
+			if ex, isEx := r.(*ssa.Extract); isEx && ex.Index == tup.Len()-1 {
+				errv = ex
+			}
+		}
+		if errv == nil {
+			return nil // the error is not even extracted; reported by the caller as unused
+		}
+	}
+	fl := an.FlowFromFacts(call.Block(), nil, errv)
+	var out []*ssa.Return
+	for _, r := range fl.ReachedReturns() {
+		if len(r.Results) == 0 {
+			continue
+		}
+		if fl.Nilness(an.RetVal(r, len(r.Results)-1)) == -1 {
+			out = append(out, r)
+		}
+	}
+	return out
+}
+
+// R06g: a destroy request that could not be honoured is answered with an error: when the (final) teardown or the kill
+// of the environment's tasks fails, the RPC helper must not answer OK.
+func r06g(c *an.Ctx) {
+	c.Rule("R06g", "doTeardownAndCleanup: a failed teardown and a failed task clean-up are returned as errors", 2)
+	fn := c.MustFn("core", "RpcServer.doTeardownAndCleanup")
+	if fn == nil {
+		return
+	}
+	for _, suffix := range []string{"core/environment.Manager).TeardownEnvironment", "core.RpcServer).doCleanupTasks"} {
+		found := false
+		for _, ci := range an.Calls(fn, func(n string, _ ssa.CallInstruction) bool { return strings.HasSuffix(n, suffix) }) {
+			call, ok := ci.(*ssa.Call)
+			if !ok {
+				continue
+			}
+			found = true
+			c.Subject()
+			var bad []string
+			for _, r := range errSwallowed(call) {
+				bad = append(bad, c.PosStr(lastPos(r.Block())))
+			}
+			sort.Strings(bad)
+			short := suffix[strings.LastIndex(suffix, ".")+1:]
+			c.Ob("(*core.RpcServer).doTeardownAndCleanup|"+short+"|error-returned", call.Pos(), len(bad) == 0,
+				"when %s fails the function can still return a nil error (at %v): a destroy that left the environment or some of its tasks behind is reported as done", short, bad)
+		}
+		if !found {
+			c.Lost("call of " + suffix + " in RpcServer.doTeardownAndCleanup")
+		}
+	}
+}
+
+// R06h: every task the scheduler launched for a deployment enters the roster, whether or not the deployment as a
+// whole succeeded. A launched task that is not in the roster is never asked to terminate by anybody (kills and the
+// clean-up of unowned tasks go through the roster).
+func r06h(c *an.Ctx) {
+	c.Rule("R06h", "acquireTasks: the newly deployed tasks are appended to the roster independently of the deployment's success", 1)
+	fn := c.MustFn("core/task", "Manager.acquireTasks")
+	if fn == nil {
+		return
+	}
+	n := 0
+	for _, ci := range an.Calls(fn, func(nm string, _ ssa.CallInstruction) bool { return strings.HasSuffix(nm, "core/task.roster).append") }) {
+		n++
+		c.Subject()
+		var extra []string
+		for _, g := range an.ControlConds(ci.Block()) {
+			if g.LoopHeader || g.LoopExit {
+				continue
+			}
+			// emptiness tests of a collection are harmless
+			harmless := false
+			for _, l := range an.BackSlice(g.V, an.SliceOpts{LeafCall: func(nm string, _ *ssa.Call) bool { return nm == "builtin.len" }}) {
+				if l.Kind == "call" {
+					harmless = true
+				}
+			}
+			if !harmless {
+				p := c.PosStr(condPos(g.V))
+				dup := false
+				for _, e := range extra {
+					dup = dup || e == p
+				}
+				if !dup {
+					extra = append(extra, p)
+				}
+			}
+		}
+		sort.Strings(extra)
+		c.Ob(fmt.Sprintf("(*core/task.Manager).acquireTasks|roster-append#%d|unconditional", n), ci.Pos(), len(extra) == 0,
+			"whether a launched task enters the roster depends on conditions at %v: a task launched by a deployment that failed as a whole stays out of the roster, keeps running on its agent and is never killed", extra)
+	}
+	if n == 0 {
+		c.Lost("roster.append in Manager.acquireTasks")
+	}
 }
